@@ -62,7 +62,9 @@ def work(item):
     vd.set_timeout(3)
     out = {"cpu": cpu, "forms": [], "asm": 0}
     hangs = 0
-    for text, k in forms:
+    for form in forms:
+        text, k = form[0], form[1]
+        probes = form[2] if len(form) > 2 and form[2] else PROBES
         lits = corpus.literals(text)
         if k >= len(lits):
             continue
@@ -70,7 +72,7 @@ def work(item):
         groups = {}
         rejected = 0
         crashes = []
-        for v in PROBES:
+        for v in probes:
             t = corpus.subst_literal(text, m, v)
             if hangs >= 4:
                 break
@@ -131,7 +133,7 @@ def gen_items(run, cpuinfo):
                 forms.append((ln, k))
         if quick:
             rng = random.Random(run.seed * 104729 + zlib.crc32(cpu.encode()))
-            n = max(3, len(forms) // 12)
+            n = max(2, len(forms) // 30)
             forms = rng.sample(forms, min(n, len(forms)))
         for i in range(0, len(forms), 4):
             items.append((cpu, cpuinfo[cpu]["bpa"], forms[i:i + 4]))
@@ -182,17 +184,28 @@ def main(run):
     return run.finish(lambda cs: replay_keys(run, cs))
 
 
+def _replay_one(item):
+    c, bpa = item
+    tmp = core.Run("C06", "quick", 1, RULE)
+    # a catalogued witness names the colliding pair: re-assemble just those values (plus neighbours)
+    r = work((c["cpu"], bpa, [(c["text"], c["k"], c.get("pair"))]))
+    consume(tmp, r, {})
+    return {"keys": sorted(tmp.viol.keys()), "id": c.get("_i")}
+
+
 def replay_keys(run, cases):
     vd = driver.Vdrv(core.ARTS["san"]["vdrv"])
     cpuinfo = {c["name"]: c for c in vd.cpus()}
     vd.close()
-    out = []
-    for c in cases:
-        core._VD = None
-        tmp = core.Run("C06", "quick", run.seed, RULE)
-        r = work((c["cpu"], cpuinfo[c["cpu"]]["bpa"], [(c["text"], c["k"])]))
-        consume(tmp, r, {})
-        out.append(set(tmp.viol.keys()))
+    out = [set() for _ in cases]
+    items = []
+    for i, c in enumerate(cases):
+        c = dict(c)
+        c["_i"] = i
+        items.append((c, cpuinfo[c["cpu"]]["bpa"]))
+    for r in core.pmap(_replay_one, items, chunk=2):
+        if "keys" in r:
+            out[r["id"]] = set(r["keys"])
     return out
 
 
